@@ -859,6 +859,80 @@ func c05Check(c *Ctx, n eqNode, count bool) {
 			c.Outcome(mutClass(m.Note))
 		}
 	}
+	if _, isStack := refAsStack(a); isStack || true {
+		c05After(c, n, a, b, size)
+	}
+}
+
+// c05Nested lists every Stack and Condition below (and including) v, outermost first.
+func c05Nested(v any, depth int, out *[]any) {
+	if depth > 8 {
+		return
+	}
+	if st, ok := refAsStack(v); ok && st.IsInit() {
+		*out = append(*out, st)
+		for _, e := range contents(st) {
+			c05Nested(e, depth+1, out)
+		}
+		return
+	}
+	if cd, ok := refAsCond(v); ok && cd.IsInit() {
+		*out = append(*out, cd)
+		c05Nested(cd.Expression(), depth+1, out)
+	}
+}
+
+// c05After: two more questions about an equal pair. (1) One side is dressed differently - presentation
+// options, identifiers, auxiliary data on every Stack and Condition in it: none of that is kind, capacity,
+// order, Condition part or leaf value, so the verdict stays nil. (2) After the pair has compared equal, a
+// nested Stack of one side is written to through its own handle (no setter of the holder is involved): the
+// next comparison sees the difference.
+func c05After(c *Ctx, n eqNode, a, b any, size int) {
+	var inB []any
+	c05Nested(b, 0, &inB)
+	for _, x := range inB {
+		switch tv := x.(type) {
+		case stackage.Stack:
+			tv.SetParen(true).SetNoPadding(true).SetLeadOnce(true).SetEncap("'").SetSymbol("sym").SetDelimiter(";").SetID("dressed").SetCategory("cat").SetAuxiliary(stackage.Auxiliary{"k": 1}).SetLogLevel("all")
+		case stackage.Condition:
+			tv.SetParen(true).SetNoPadding(true).SetEncap("'").SetID("dressed").SetCategory("cat").SetAuxiliary(stackage.Auxiliary{"k": 1}).SetLogLevel("all")
+		}
+	}
+	for dir, pair := range [][2]any{{a, b}, {b, a}} {
+		err, p := isEqualErr(pair[0], pair[1])
+		if p != "" {
+			c.Violation("panic:dressed-copy", fmt.Sprintf("IsEqual panicked comparing %s with a copy that only differs in presentation options: %s", n, p), n, size)
+			return
+		}
+		if err != nil {
+			c.Violation("presentation-options-taken-for-content", fmt.Sprintf("IsEqual (direction %d) rejects a copy of %s whose Stacks and Conditions merely carry other presentation options (parenthetical, padding, lead-once, encapsulation, symbol, delimiter), identifiers and auxiliary data: %v", dir, n, err), n, size)
+			return
+		}
+	}
+	// (2) the innermost writable Stack of b gets one more element
+	for i := len(inB) - 1; i >= 1; i-- {
+		st, ok := inB[i].(stackage.Stack)
+		if !ok || st.IsReadOnly() || st.IsFull() {
+			continue
+		}
+		before := st.Len()
+		st.Push("written-through-its-own-handle")
+		if st.Len() != before+1 {
+			continue
+		}
+		for dir, pair := range [][2]any{{a, b}, {b, a}} {
+			err, p := isEqualErr(pair[0], pair[1])
+			if p != "" {
+				c.Violation("panic:after-outside-write", fmt.Sprintf("IsEqual panicked after a nested Stack of one side of %s was pushed to: %s", n, p), n, size)
+				return
+			}
+			if err == nil {
+				c.Violation("difference-missed:after-outside-write", fmt.Sprintf("IsEqual (direction %d) still returns nil for two builds of %s after they compared equal and a nested Stack (level %d) of one of them was then pushed to through its own handle", dir, n, i), n, size)
+				return
+			}
+		}
+		return
+	}
 }
 
 func leafTypes(n eqNode) string {
